@@ -453,6 +453,43 @@ Definition set_body (s : pst) (body : bytes) (p : parms) (t : hdrs) (g : stage) 
 Definition terminal (g : stage) : bool :=
   match g with SDone | SFail _ => true | _ => false end.
 
+(* ---- checkPersisted: keep the connection open after this message? (derived from the head) ---- *)
+Fixpoint contains (p b : bytes) : bool :=
+  match b with
+  | [] => is_nil p
+  | _ :: t => starts_with p b || contains p t
+  end.
+
+Definition hdr_has (name word : bytes) (h : hdrs) : bool :=        (* word in headers[name].lower() *)
+  match aget name h with
+  | Some v => negb (is_nil v) && contains word (lower v)
+  | None => false
+  end.
+Definition hdr_set (name : bytes) (h : hdrs) : bool :=
+  match aget name h with Some v => negb (is_nil v) | None => false end.
+
+Definition persisted11 (s : pst) : bool :=
+  if hdr_has (bz "connection"%string) (bz "close"%string) (p_headers s) then false
+  else if negb (p_chunked s) && (match p_length s with None => true | Some _ => false end) then false
+  else true.
+
+(* serving.Requestant.checkPersisted *)
+Definition req_persisted (s : pst) : bool :=
+  if p_version s =? 1 then persisted11 s
+  else if p_version s =? 0 then hdr_has (bz "connection"%string) (bz "keep-alive"%string) (p_headers s)
+  else false.
+
+(* clienting.Respondent.checkPersisted (not evented) *)
+Definition resp_persisted (s : pst) : bool :=
+  if p_version s =? 1 then persisted11 s
+  else if p_version s =? 0 then
+    hdr_set (bz "keep-alive"%string) (p_headers s)
+    || hdr_has (bz "connection"%string) (bz "keep-alive"%string) (p_headers s)
+    || hdr_has (bz "proxy-connection"%string) (bz "keep-alive"%string) (p_headers s)
+  else false.
+
+Definition persisted (s : pst) : bool := if p_resp s then resp_persisted s else req_persisted s.
+
 (* end of parseHead: framing decision and first body stage *)
 Definition head_done (s : pst) (h : hdrs) : pst :=
   let chunked := is_chunked h in
